@@ -249,11 +249,13 @@ func init() {
 	})
 	register(&Property{
 		ID: "C23",
-		Explanation: "Decides the guards of forget: (forget-guards) ApplyPolicy is reachable only with a non-empty policy or with --unsafe-allow-remove-all together with a snapshot filter; in policy mode an id is scheduled for removal only on the len(keep)!=0 edge of that group (or with an empty policy, which needed the unsafe flag), i.e. a non-empty policy never removes a whole group; ParallelRemove runs only on the DryRun==false edge; (remove-set-origin) the removal set is filled at exactly two sites — in policy mode with the ids of ApplyPolicy's `remove` result, in ID mode (only when arguments are given) with the ids of the snapshots found for the arguments — and that set is what ParallelRemove receives; (policy-fields) every field of data.ExpirePolicy is set from an option and Empty() compares the whole struct; (remove-report) every report callback handed to restic.ParallelRemove examines the error it receives for the file; in runForget a failed removal records the file's id on every path and prune — which is told that the listed snapshots are gone — runs only behind len(failedSnIDs) == 0 of that very set; because ParallelRemove invokes the callback from its worker goroutines, every update of captured state in a report callback holds a mutex (the unsynchronised failedSnIDs.Insert of runForget was a genuine defect, fixed; the first two clauses were added after a seeded change that made the callback test the enclosing function's err). Not decided: which snapshots the policy selects (C22).",
+		Explanation: "Decides the guards of forget: (forget-guards) ApplyPolicy is reachable only with a non-empty policy or with --unsafe-allow-remove-all together with a snapshot filter; in policy mode an id is scheduled for removal only on the len(keep)!=0 edge of that group (or with an empty policy, which needed the unsafe flag), i.e. a non-empty policy never removes a whole group; ParallelRemove runs only on the DryRun==false edge; (remove-set-origin) the removal set is filled at exactly two sites — in policy mode with the ids of ApplyPolicy's `remove` result, in ID mode (only when arguments are given) with the ids of the snapshots found for the arguments — and that set is what ParallelRemove receives; (policy-fields) every field of data.ExpirePolicy is set from an option and Empty() compares the whole struct; (remove-report) every report callback handed to restic.ParallelRemove examines the error it receives for the file; in runForget a failed removal records the file's id on every path and prune — which is told that the listed snapshots are gone — runs only behind len(failedSnIDs) == 0 of that very set; because ParallelRemove invokes the callback from its worker goroutines, every update of captured state in a report callback holds a mutex (the unsynchronised failedSnIDs.Insert of runForget was a genuine defect, fixed; the first two clauses were added after a seeded change that made the callback test the enclosing function's err). (empty-policy-structural) ExpirePolicy.Empty, on which the group guard rests, can answer anything but false only behind len(e.Tags) == 0 taken of the field itself — a policy consisting of --keep-tag '' (keep untagged snapshots) is not empty (added after a seeded change that measured a flattened copy, which drops empty tags: a fully tagged group was removed). Not decided: which snapshots the policy selects (C22).",
 		Assumptions: commonAssumptions,
 		Technique:   "static analysis: CFG edge cuts + value origin of the removal set + lockset of the concurrent report callbacks (go/ssa)",
-		Run:         func(c *eng.Ctx) { ruleForgetGuards(c); ruleRemoveReport(c) },
+		Run:         func(c *eng.Ctx) { ruleEmptyPolicyStructural(c); ruleForgetGuards(c); ruleRemoveReport(c) },
 		Controls: []Control{
+			{Name: "empty-judged-without-tags", File: "internal/data/snapshot_policy.go",
+				Old: "	if len(e.Tags) != 0 {\n		return false\n	}\n\n	empty := ExpirePolicy{Tags: e.Tags}", New: "	empty := ExpirePolicy{Tags: e.Tags}", Rule: "empty-policy-structural"},
 			{Name: "failed-removal-recorded-without-lock", File: "cmd/restic/cmd_forget.go",
 				Old: "					failedSnIDsLock.Lock()\n					failedSnIDs.Insert(id)\n					failedSnIDsLock.Unlock()\n", New: "					failedSnIDs.Insert(id)\n					_ = &failedSnIDsLock\n", Rule: "remove-report"},
 			{Name: "prune-although-removals-failed", File: "cmd/restic/cmd_forget.go",
